@@ -9,6 +9,12 @@ package hash_test
 // every Add* is executed as Remove followed by the same Add*, gives the reference for the
 // "re-adding replaces the previous virtual nodes" clause.  The driver judges nothing: the
 // recorded events are validated against spec/ConsistentHashTrace.tla by TLC.
+//
+// Every call of the code under test (Get, Add*, Remove) runs under recover(): a call that
+// panics instead of returning is an observation like any other.  The lookup result is then
+// logged as "PANIC" and the event carries `pan` (the operations that panicked since the last
+// event: "get", "add", "addw", "addr", "remove") and `panmsg` (first panic value per operation).
+// The contract rejects such an event (clause "panic").
 
 import (
 	"fmt"
@@ -33,6 +39,58 @@ type c13Stringer struct{ name string }
 func (s *c13Stringer) String() string { return s.name }
 
 const c13None = "-"
+
+// c13Panic is logged in place of a lookup result when Get panicked.
+const c13Panic = "PANIC"
+
+// c13Pan collects the calls of the code under test that panicked since the last emitted event.
+type c13Pan struct {
+	ops  []string          // distinct operations, in order of first occurrence
+	msgs map[string]string // operation -> first panic value
+	n    map[string]int    // operation -> number of panics
+}
+
+// call runs f (one call of the code under test); true = it returned normally.
+func (p *c13Pan) call(op string, f func()) (ok bool) {
+	defer func() {
+		if r := recover(); r != nil {
+			ok = false
+			if p.msgs == nil {
+				p.msgs, p.n = map[string]string{}, map[string]int{}
+			}
+			if _, seen := p.msgs[op]; !seen {
+				p.ops = append(p.ops, op)
+				p.msgs[op] = fmt.Sprint(r)
+			}
+			p.n[op]++
+		}
+	}()
+	f()
+	return true
+}
+
+// flush writes what was collected into the event and starts over.
+func (p *c13Pan) flush(ev kit.M) {
+	ops := p.ops
+	if ops == nil {
+		ops = []string{}
+	}
+	ev["pan"] = ops
+	if len(ops) > 0 {
+		ev["panmsg"] = p.msgs
+	}
+	p.ops, p.msgs, p.n = nil, nil, nil
+}
+
+// get is Get under recover: the spec name of the returned node, "-" for absence, "PANIC".
+func (w *c13World) get(r *hash.ConsistentHash, k any, p *c13Pan) string {
+	var n any
+	var ok bool
+	if !p.call("get", func() { n, ok = r.Get(k) }) {
+		return c13Panic
+	}
+	return w.nameOf(n, ok)
+}
 
 type c13World struct {
 	nodes map[string]any // spec name -> Go node
@@ -101,20 +159,18 @@ func (w *c13World) nameOf(n any, ok bool) string {
 	return "?" + fmt.Sprint(n)
 }
 
-func (w *c13World) look(r *hash.ConsistentHash, keys []any) []string {
+func (w *c13World) look(r *hash.ConsistentHash, keys []any, p *c13Pan) []string {
 	out := make([]string, len(keys))
 	for i, k := range keys {
-		n, ok := r.Get(k)
-		out[i] = w.nameOf(n, ok)
+		out[i] = w.get(r, k, p)
 	}
 	return out
 }
 
-func (w *c13World) lookPop(r *hash.ConsistentHash) []string {
+func (w *c13World) lookPop(r *hash.ConsistentHash, p *c13Pan) []string {
 	out := make([]string, len(w.pop))
 	for i, k := range w.pop {
-		n, ok := r.Get(k)
-		out[i] = w.nameOf(n, ok)
+		out[i] = w.get(r, k, p)
 	}
 	return out
 }
@@ -141,20 +197,22 @@ func c13NewRing(base int) *hash.ConsistentHash {
 	return hash.NewCustomConsistentHash(base, nil)
 }
 
-func c13Apply(r *hash.ConsistentHash, st kit.M, node any, removeFirst bool) error {
+func c13Apply(r *hash.ConsistentHash, st kit.M, node any, removeFirst bool, p *c13Pan) error {
 	op := kit.Str(st["op"])
 	if removeFirst && op != "remove" && op != "lookup" {
-		r.Remove(node)
+		p.call("remove", func() { r.Remove(node) })
 	}
 	switch op {
 	case "add":
-		r.Add(node)
+		p.call(op, func() { r.Add(node) })
 	case "addw":
-		r.AddWithWeight(node, kit.Num(st["w"]))
+		w := kit.Num(st["w"])
+		p.call(op, func() { r.AddWithWeight(node, w) })
 	case "addr":
-		r.AddWithReplicas(node, kit.Num(st["r"]))
+		n := kit.Num(st["r"])
+		p.call(op, func() { r.AddWithReplicas(node, n) })
 	case "remove":
-		r.Remove(node)
+		p.call(op, func() { r.Remove(node) })
 	case "lookup":
 	default:
 		return fmt.Errorf("unknown op %q", op)
@@ -166,7 +224,8 @@ func runC13Case(w *c13World, c kit.Case, base int, tr *kit.Tracer) kit.Verdict {
 	v := kit.Verdict{Case: c.Index, OK: true}
 	main, shadow := c13NewRing(base), c13NewRing(base)
 	tr.Emit(kit.M{"ev": "reset", "h": c.Index, "base": base})
-	prev := w.lookPop(main)
+	pan := &c13Pan{} // a panic of the lookups on the fresh ring is carried into the first event
+	prev := w.lookPop(main, pan)
 	for _, st := range c.Steps {
 		op := kit.Str(st["op"])
 		var node any
@@ -176,24 +235,24 @@ func runC13Case(w *c13World, c kit.Case, base int, tr *kit.Tracer) kit.Verdict {
 				return kit.Verdict{Case: c.Index, Infra: true, Msg: "unknown node " + kit.Str(st["n"])}
 			}
 		}
-		if err := c13Apply(main, st, node, false); err != nil {
+		if err := c13Apply(main, st, node, false, pan); err != nil {
 			return kit.Verdict{Case: c.Index, Infra: true, Msg: err.Error()}
 		}
-		c13Apply(shadow, st, node, true)
+		c13Apply(shadow, st, node, true, pan)
 		ev := kit.M{"ev": op}
 		for _, f := range []string{"n", "w", "r"} {
 			if x, ok := st[f]; ok {
 				ev[f] = x
 			}
 		}
-		ev["asg"] = w.look(main, w.probe)
-		ev["asg2"] = w.look(main, w.probe)
-		cur := w.lookPop(main)
+		ev["asg"] = w.look(main, w.probe, pan)
+		ev["asg2"] = w.look(main, w.probe, pan)
+		cur := w.lookPop(main, pan)
 		var alt []string
 		if op != "remove" && op != "lookup" {
 			// reference for "re-adding replaces the previous virtual nodes"
-			ev["alt"] = w.look(shadow, w.probe)
-			alt = w.lookPop(shadow)
+			ev["alt"] = w.look(shadow, w.probe, pan)
+			alt = w.lookPop(shadow, pan)
 		}
 		cnt := map[string]int{c13None: 0}
 		for _, n := range w.order {
@@ -226,6 +285,7 @@ func runC13Case(w *c13World, c kit.Case, base int, tr *kit.Tracer) kit.Verdict {
 		if alt != nil {
 			ev["altd"] = altd
 		}
+		pan.flush(ev)
 		tr.Emit(ev)
 		prev = cur
 		v.Steps++
@@ -260,15 +320,51 @@ func TestVerifC13(t *testing.T) {
 	rep.Count("events", int(tr.N))
 }
 
+// c13SharedPan is c13Pan for several goroutines.
+type c13SharedPan struct {
+	mu sync.Mutex
+	c13Pan
+}
+
+func (p *c13SharedPan) call(op string, f func()) (ok bool) {
+	defer func() {
+		if r := recover(); r != nil {
+			ok = false
+			p.mu.Lock()
+			defer p.mu.Unlock()
+			p.c13Pan.call(op, func() { panic(r) })
+		}
+	}()
+	f()
+	return true
+}
+
+// json renders {"op":count,...} and the first panic value per operation.
+func (p *c13Pan) json() string {
+	s := "{"
+	for i, op := range p.ops {
+		if i > 0 {
+			s += ","
+		}
+		s += strconv.Quote(op) + ":{\"n\":" + strconv.Itoa(p.n[op]) + ",\"msg\":" + strconv.Quote(p.msgs[op]) + "}"
+	}
+	return s + "}"
+}
+
 // TestVerifC13Race: lookups concurrent with membership changes, meant to be run under -race.
-// The statement does not quantify over concurrency, so nothing is compared here: only a data
-// race reported by the race detector or a panic (both make the test binary fail) is a finding.
+// The statement does not quantify over concurrency, so no lookup result is compared here: a data
+// race reported by the race detector or a fatal runtime error (both make the test binary fail) is a
+// finding, and so is a call of Get / Add* / Remove that panics (every call runs under recover();
+// the panics are counted per operation and printed, the check reports them as C13:panic:<op>).
+// Every fourth round removes all four nodes: the main goroutine looks keys up after every round,
+// so lookups on a ring that returned to empty do not depend on scheduling.
 func TestVerifC13Race(t *testing.T) {
 	w := newC13World(2000, kit.Seed())
 	ring := hash.NewConsistentHash()
 	stop := make(chan struct{})
 	var wg sync.WaitGroup
 	var lookups [4]int
+	pan := &c13SharedPan{}
 	for g := 0; g < 4; g++ {
 		wg.Add(1)
 		go func(g int) {
@@ -279,37 +375,42 @@ func TestVerifC13Race(t *testing.T) {
 					return
 				default:
 				}
-				ring.Get(w.pop[(i*7+g)%len(w.pop)])
-				ring.Get(w.probe[i%len(w.probe)])
+				pan.call("get", func() { ring.Get(w.pop[(i*7+g)%len(w.pop)]) })
+				pan.call("get", func() { ring.Get(w.probe[i%len(w.probe)]) })
 				lookups[g] += 2
 			}
 		}(g)
 	}
 	rounds := kit.EnvInt("VERIF_ROUNDS", 300)
 	deadline := time.Now().Add(20 * time.Second)
-	n := 0
+	n, own := 0, 0
 	for ; n < rounds && time.Now().Before(deadline); n++ {
 		for _, name := range w.order {
 			node := w.nodes[name]
 			switch (n + len(name)) % 4 {
 			case 0:
-				ring.Add(node)
+				pan.call("add", func() { ring.Add(node) })
 			case 1:
-				ring.AddWithWeight(node, (n*37)%101)
+				pan.call("addw", func() { ring.AddWithWeight(node, (n*37)%101) })
 			case 2:
-				ring.AddWithReplicas(node, (n*53)%201)
+				pan.call("addr", func() { ring.AddWithReplicas(node, (n*53)%201) })
 			case 3:
-				ring.Remove(node)
+				pan.call("remove", func() { ring.Remove(node) })
 			}
+		}
+		for i := 0; i < 8; i++ {
+			pan.call("get", func() { ring.Get(w.pop[(n*8+i)%len(w.pop)]) })
+			own++
 		}
 	}
 	close(stop)
 	wg.Wait()
-	total := 0
+	total := own
 	for _, c := range lookups {
 		total += c
 	}
 	fmt.Printf("C13RACE rounds=%d lookups=%d\n", n, total)
+	fmt.Printf("C13RACEPANIC %s\n", pan.c13Pan.json())
 }
 
 // TestVerifC13Shares: the statistical clause "each node's share of a large key population is
@@ -328,22 +429,28 @@ func TestVerifC13Shares(t *testing.T) {
 		ring = hash.NewCustomConsistentHash(base, nil)
 	}
 	class := map[any]string{}
+	pan := &c13Pan{}
 	for i := 0; i < 10; i++ {
 		a, b, c := fmt.Sprintf("10.1.0.%d:6379", i), fmt.Sprintf("10.2.0.%d:6379", i), fmt.Sprintf("10.3.0.%d:6379", i)
-		ring.Add(a)
-		ring.AddWithWeight(b, 100)
-		ring.AddWithWeight(c, 50)
+		pan.call("add", func() { ring.Add(a) })
+		pan.call("addw", func() { ring.AddWithWeight(b, 100) })
+		pan.call("addw", func() { ring.AddWithWeight(c, 50) })
 		class[a], class[b], class[c] = "add", "w100", "w50"
 	}
-	cnt := map[string]int{"add": 0, "w100": 0, "w50": 0, "none": 0}
+	cnt := map[string]int{"add": 0, "w100": 0, "w50": 0, "none": 0, "panic": 0}
 	for i := 0; i < pop; i++ {
-		n, ok := ring.Get("share-key:" + strconv.Itoa(i))
+		var n any
+		var ok bool
+		if !pan.call("get", func() { n, ok = ring.Get("share-key:" + strconv.Itoa(i)) }) {
+			cnt["panic"]++
+			continue
+		}
 		if !ok {
 			cnt["none"]++
 			continue
 		}
 		cnt[class[n]]++
 	}
-	fmt.Printf("C13SHARE {\"base\":%d,\"pop\":%d,\"add\":%d,\"w100\":%d,\"w50\":%d,\"none\":%d}\n",
-		base, pop, cnt["add"], cnt["w100"], cnt["w50"], cnt["none"])
+	fmt.Printf("C13SHARE {\"base\":%d,\"pop\":%d,\"add\":%d,\"w100\":%d,\"w50\":%d,\"none\":%d,\"panic\":%d,\"pan\":%s}\n",
+		base, pop, cnt["add"], cnt["w100"], cnt["w50"], cnt["none"], cnt["panic"], pan.json())
 }
